@@ -127,7 +127,7 @@ impl<'a> SliceInput<'a> {
 
 impl<'a> BinaryInput for SliceInput<'a> {
     fn read_u8(&mut self) -> Result<u8> {
-        if self.pos == self.data.len() {
+        if self.pos >= self.data.len() {
             Err(Error::InputEndedUnexpectedly)
         } else {
             let result = self.data[self.pos];
@@ -137,7 +137,7 @@ impl<'a> BinaryInput for SliceInput<'a> {
     }
 
     fn read_bytes(&mut self, count: usize) -> Result<&[u8]> {
-        if self.pos + count > self.data.len() {
+        if count > self.data.len().saturating_sub(self.pos) {
             Err(Error::InputEndedUnexpectedly)
         } else {
             let result = &self.data[self.pos..self.pos + count];
@@ -147,7 +147,7 @@ impl<'a> BinaryInput for SliceInput<'a> {
     }
 
     fn skip(&mut self, count: usize) -> Result<()> {
-        if self.pos + count > self.data.len() {
+        if count > self.data.len().saturating_sub(self.pos) {
             Err(Error::InputEndedUnexpectedly)
         } else {
             self.pos += count;
@@ -169,7 +169,7 @@ impl OwnedInput {
 
 impl BinaryInput for OwnedInput {
     fn read_u8(&mut self) -> Result<u8> {
-        if self.pos == self.data.len() {
+        if self.pos >= self.data.len() {
             Err(Error::InputEndedUnexpectedly)
         } else {
             let result = self.data[self.pos];
@@ -179,7 +179,7 @@ impl BinaryInput for OwnedInput {
     }
 
     fn read_bytes(&mut self, count: usize) -> Result<&[u8]> {
-        if self.pos + count > self.data.len() {
+        if count > self.data.len().saturating_sub(self.pos) {
             Err(Error::InputEndedUnexpectedly)
         } else {
             let result = &self.data[self.pos..self.pos + count];
@@ -189,7 +189,7 @@ impl BinaryInput for OwnedInput {
     }
 
     fn skip(&mut self, count: usize) -> Result<()> {
-        if self.pos + count > self.data.len() {
+        if count > self.data.len().saturating_sub(self.pos) {
             Err(Error::InputEndedUnexpectedly)
         } else {
             self.pos += count;
